@@ -21,7 +21,7 @@ RULE = ("case = (client stack: Client / PooledClient / HashClient with 1-3 serve
         "deserialiser, an item whose bytes the serializer cannot decode, every server refusing / timing out / resetting, "
         "a HashClient inside its retry window and with every server dead. Oracle (differential): the same call on a "
         "healthy empty server gives `miss`, on a healthy server holding the keys gives `hit`; under the failure the "
-        "call must not raise and must return miss - same shape, the same default objects by identity - or, when the "
+        "call must not raise and must return miss - same shape, the same default objects by identity (defaults that are callables - a class, a function, dict, list - included: they are handed back, not called) - or, when the "
         "fault turned out harmless, the genuine hit; afterwards (clock advanced past two dead_timeouts) set+get on the "
         "same-shaped call on another client object, made after the first caller filled in the (empty) dict it was handed, still returns a clean miss; the same read call, repeated with no other traffic in between, returns the genuine hit (the items were on the servers all along) and set+get on the same object work. Non-trivial: the fault fired (from the log) and the method is not plain get.")
 MANIFEST = {
@@ -47,17 +47,29 @@ class RaisingSerde:
         raise ValueError("cannot deserialize")
 
 
+class NotCached:
+    """a class used as the 'not cached' marker: a default that happens to be callable"""
+
+
+def _marker():
+    return "called"
+
+
+# defaults that are callables are defaults like any other: handed back as they are
+CALLABLE_DEFAULTS = {"F:class": NotCached, "F:function": _marker, "F:dict": dict, "F:list": list}
+
+
 def build_call(c, call, D, C):
     """-> callable, or None when this class's method does not accept these arguments"""
     op = call["op"]
     kw = {}
     for k, v in call.get("kw", {}).items():
-        kw[k] = D if v == "D" else C if v == "C" else v
+        kw[k] = D if v == "D" else C if v == "C" else CALLABLE_DEFAULTS[v] if v in CALLABLE_DEFAULTS else v
     m = getattr(c, op)
     if op in ("get_many", "gets_many"):
         args = (list(call["keys"]),)
     elif call.get("pos_default"):
-        args = (call["key"], D)
+        args = (call["key"], CALLABLE_DEFAULTS.get(call["pos_default"], D))
     else:
         args = (call["key"],)
     try:
@@ -234,6 +246,11 @@ CALLS = [
     {"op": "gats", "key": "t", "kw": {"expire": 3, "default": "D", "cas_default": "C"}},
     {"op": "gats", "key": "t", "kw": {"default": "D"}},
     {"op": "gats", "key": "t", "kw": {"cas_default": "C"}},
+    {"op": "get", "key": "t", "kw": {"default": "F:class"}},
+    {"op": "get", "key": "t", "pos_default": "F:dict"},
+    {"op": "gets", "key": "t", "kw": {"default": "F:function", "cas_default": "F:list"}},
+    {"op": "gat", "key": "t", "kw": {"expire": 3, "default": "F:dict"}},
+    {"op": "gats", "key": "t", "kw": {"expire": 3, "default": "F:class", "cas_default": "F:function"}},
     {"op": "get_many", "keys": ["t", "n"]},
     {"op": "gets_many", "keys": ["t", "n", "zz"]},
     {"op": "get_many", "keys": ["t"]},
@@ -309,7 +326,7 @@ def random_strategy(tier):
                         st.sampled_from(["refused", "timeout", "reset", "oserror"]).map(lambda w: {"type": "down", "what": w}),
                         st.sampled_from([{"type": "serde", "how": "raise"}, {"type": "serde", "how": "badutf8"}, {"type": "retry-window"}, {"type": "all-dead"}]))
     stack = st.sampled_from(STACKS)
-    dflt = st.sampled_from(["D", None, 0, b"", "C"])
+    dflt = st.sampled_from(["D", None, 0, b"", "C", "F:class", "F:function", "F:dict"])
     kwargs = st.fixed_dictionaries({}, optional={"default": dflt, "cas_default": dflt, "expire": st.sampled_from([0, 5, -1])})
     call = st.one_of(
         st.builds(lambda op, k, kw: {"op": op, "key": k, "kw": kw}, st.sampled_from(["get", "gets", "gat", "gats"]), st.sampled_from(KEYS + ["zz"]), kwargs),
